@@ -6,6 +6,21 @@ from pathlib import Path
 V = Path(__file__).resolve().parent.parent
 
 CHECKS = {
+    "C02": dict(
+        category="proof",
+        text="Lean 4 theorems (C02.*): the model's body map (drift limit, quadrupole of either sign, sector bend with "
+             "gradient) satisfies R(0)=1, R(a+b)=R(a)R(b) and dR/dL = A*R(L) entrywise for the textbook generator A, in "
+             "both the trigonometric and hyperbolic branch; tilt and misalignment are conjugations (the shortcuts skip "
+             "identities), quadrupole flow with conjugated generator, misalignment acts as v->R(v-d)+d, drift R56 = "
+             "-L/(beta^2 gamma^2), edges are the thin-lens formulas, correctors = drift + kick of exactly the angle. The "
+             "model is tied to /repo by the 49-entry double-vs-double correspondence per element class on every run; a "
+             "falsifier compares transfer_map with scipy expm(L*A) built independently.",
+        design="§5 C02",
+        note="Trusted: Lean kernel, Mathlib, propext/Classical.choice/Quot.sound; instance Scalar ℝ; real semantics "
+             "(round-off covered by correspondence only); uniqueness of linear ODE solutions is cited, not proved; edge "
+             "maps are specified (thin lens), not derived from a field model; solenoid flow is falsifier-only.",
+        technique="Lean 4 proof (HasDerivAt flow + group law) over hand-written model + differential correspondence + expm oracle",
+    ),
     "C03": dict(
         category="proof",
         text="Lean 4 theorems (C03.*): every linear element map of the model is S6-symplectic for all parameter values "
